@@ -198,6 +198,160 @@ theorem C02_multipart_lists_only_accepted (max : Nat) (parts : List Part) :
 /-- the cap in the source is the documented 16 MiB -/
 theorem C02_gen_max_is_16MiB : Gen.maxBlobSize = 16 * 1024 * 1024 := by decide
 
+/-! ## every history: the invariant over any sequence of uploads and removals -/
+
+/-- an event at a store's ingest side: a verified upload offered under ref `k` (hash supported or
+not, any source), or a removal -/
+inductive Ev where
+  | upload (k : Bytes) (supported : Bool) (src : Src)
+  | remove (k : Bytes)
+
+/-- the effect of one event on the reference map (what `receiveInto` does to the abstraction of any
+refining store, `C02_accept_stores_exactly` / `C02_reject_no_trace`); `m k` = "hashes to ref `k`" -/
+def applyEv (max : Nat) (m : Bytes → Bytes → Bool) (st : SMap Bytes) : Ev → SMap Bytes
+  | .upload k sup src =>
+    match receive max sup (m k) src with
+    | .accepted d => next st (.recv k d)
+    | _ => st
+  | .remove k => next st (.rm k)
+
+/-- every stored blob hashes to its ref and is within the cap -/
+def Clean (max : Nat) (m : Bytes → Bytes → Bool) (st : SMap Bytes) : Prop :=
+  ∀ k v, SMap.get st k = some v → m k v = true ∧ v.length ≤ max
+
+theorem applyEv_clean (max : Nat) (m : Bytes → Bytes → Bool) (st : SMap Bytes) (hk : SMap.KAsc st)
+    (hc : Clean max m st) (e : Ev) :
+    SMap.KAsc (applyEv max m st e) ∧ Clean max m (applyEv max m st e) := by
+  cases e with
+  | upload k sup src =>
+    cases hr : receive max sup (m k) src with
+    | accepted d =>
+      obtain ⟨_, _, hl, hm, hst⟩ := (C02_accept_iff max sup (m k) src d).mp hr
+      simp only [applyEv, hr, next]
+      split
+      · exact ⟨hk, hc⟩
+      · refine ⟨SMap.kasc_ins k d hk, ?_⟩
+        intro k' v' h
+        rw [SMap.get_ins] at h
+        by_cases hkk : k' = k
+        · subst hkk
+          simp only [if_true, Option.some.injEq] at h
+          subst h; subst hst
+          exact ⟨hm, hl⟩
+        · simp only [hkk, if_false] at h; exact hc _ _ h
+    | corrupt => simp only [applyEv, hr]; exact ⟨hk, hc⟩
+    | tooBig => simp only [applyEv, hr]; exact ⟨hk, hc⟩
+    | srcErr => simp only [applyEv, hr]; exact ⟨hk, hc⟩
+    | badHash => simp only [applyEv, hr]; exact ⟨hk, hc⟩
+  | remove k =>
+    refine ⟨SMap.kasc_del k hk, ?_⟩
+    intro k' v' h
+    simp only [applyEv, next] at h
+    rw [SMap.get_del k hk] at h
+    by_cases hkk : k' = k
+    · simp [hkk] at h
+    · simp only [hkk, if_false] at h; exact hc _ _ h
+
+/-- **every history**: whatever sequence of uploads (any ref, any hash, any source, any
+fragmentation, any ending) and removals a store has seen, every blob it holds hashes to its ref
+under the ref's own function and is no larger than the cap – by induction over the history, no
+bound on its length -/
+theorem C02_history_only_matching_within_cap (max : Nat) (m : Bytes → Bytes → Bool) (evs : List Ev)
+    (st : SMap Bytes) (hk : SMap.KAsc st) (hc : Clean max m st) :
+    Clean max m (evs.foldl (applyEv max m) st) := by
+  induction evs generalizing st with
+  | nil => exact hc
+  | cons e es ih =>
+    obtain ⟨hk', hc'⟩ := applyEv_clean max m st hk hc e
+    exact ih _ hk' hc'
+
+/-- from the empty store -/
+theorem C02_history_from_empty (max : Nat) (m : Bytes → Bytes → Bool) (evs : List Ev) :
+    Clean max m (evs.foldl (applyEv max m) []) :=
+  C02_history_only_matching_within_cap max m evs [] SMap.kasc_nil
+    (by intro k v h; simp [SMap.get] at h)
+
+/-- with the regenerated cap: no stored blob ever exceeds 16 MiB -/
+theorem C02_history_gen_cap (m : Bytes → Bytes → Bool) (evs : List Ev) (k v : Bytes)
+    (h : SMap.get (evs.foldl (applyEv Gen.maxBlobSize m) []) k = some v) :
+    m k v = true ∧ v.length ≤ 16 * 1024 * 1024 := by
+  have := C02_history_from_empty Gen.maxBlobSize m evs k v h
+  rw [C02_gen_max_is_16MiB] at this
+  exact this
+
+/-- the same events on an implementation model: uploads go through `receiveInto`, removals through
+the store's own step -/
+def applyEvImpl (I : Impl) (max : Nat) (m : Bytes → Bytes → Bool) (s : I.σ) : Ev → I.σ
+  | .upload k sup src => (receiveInto I max sup (m k) s k src).state
+  | .remove k => (I.step s (.rm k)).1
+
+theorem receiveInto_state_accepted (I : Impl) (max : Nat) (sup : Bool) (mk : Bytes → Bool) (s : I.σ)
+    (k : Bytes) (src : Src) (d : Bytes) (hr : receive max sup mk src = .accepted d) :
+    (receiveInto I max sup mk s k src).state = (I.step s (.recv k d)).1 := by
+  unfold receiveInto
+  simp only [hr]
+  generalize I.step s (.recv k d) = pr
+  obtain ⟨s', o⟩ := pr
+  cases o <;> rfl
+
+/-- **every history, every store**: on any storage model that refines the reference map (every
+backend and every nesting of combinators of C01), the store's abstraction after any history of
+uploads and removals is the reference map after the same history – so, with
+`C02_history_only_matching_within_cap`, it only ever holds blobs that hash to their refs within the
+cap. `hcf` is collision freedom: only the content a ref denotes hashes to it. -/
+theorem C02_history_on_any_store {content : Bytes → Bytes} {I : Impl} (R : Refines content I)
+    (max : Nat) (m : Bytes → Bytes → Bool) (hcf : ∀ k d, m k d = true → d = content k ∧ k ≠ [])
+    (evs : List Ev) (s : I.σ) (hs : R.Inv s) :
+    R.Inv (evs.foldl (applyEvImpl I max m) s) ∧
+    R.abs (evs.foldl (applyEvImpl I max m) s) = evs.foldl (applyEv max m) (R.abs s) := by
+  induction evs generalizing s with
+  | nil => exact ⟨hs, rfl⟩
+  | cons e es ih =>
+    simp only [List.foldl_cons]
+    cases e with
+    | upload k sup src =>
+      cases hr : receive max sup (m k) src with
+      | accepted d =>
+        obtain ⟨_, _, _, hm, hst⟩ := (C02_accept_iff max sup (m k) src d).mp hr
+        obtain ⟨_, ha, hi⟩ := R.step_ok s (.recv k d) hs (hcf k d (by rw [hst]; exact hm))
+        have hst' := receiveInto_state_accepted I max sup (m k) s k src d hr
+        have h1 : applyEvImpl I max m s (.upload k sup src) = (I.step s (.recv k d)).1 := hst'
+        have h2 : applyEv max m (R.abs s) (.upload k sup src) = next (R.abs s) (.recv k d) := by
+          simp only [applyEv, hr]
+        rw [h1, h2, ← ha]
+        exact ih _ hi
+      | corrupt | tooBig | srcErr | badHash =>
+        have hrej : (receive max sup (m k) src).isAccepted = false := by rw [hr]; rfl
+        have h1 : applyEvImpl I max m s (.upload k sup src) = s :=
+          (C02_reject_no_trace I max sup (m k) s k src hrej).1
+        have h2 : applyEv max m (R.abs s) (.upload k sup src) = R.abs s := by
+          simp only [applyEv, hr]
+        rw [h1, h2]
+        exact ih _ hs
+    | remove k =>
+      obtain ⟨_, ha, hi⟩ := R.step_ok s (.rm k) hs trivial
+      have h1 : applyEvImpl I max m s (.remove k) = (I.step s (.rm k)).1 := rfl
+      have h2 : applyEv max m (R.abs s) (.remove k) = next (R.abs s) (.rm k) := rfl
+      rw [h1, h2, ← ha]
+      exact ih _ hi
+
+/-- corollary from the initial state of any refining store -/
+theorem C02_any_store_holds_only_matching {content : Bytes → Bytes} {I : Impl} (R : Refines content I)
+    (max : Nat) (m : Bytes → Bytes → Bool) (hcf : ∀ k d, m k d = true → d = content k ∧ k ≠ [])
+    (evs : List Ev) (k v : Bytes)
+    (h : SMap.get (R.abs (evs.foldl (applyEvImpl I max m) I.init)) k = some v) :
+    m k v = true ∧ v.length ≤ max := by
+  rw [(C02_history_on_any_store R max m hcf evs I.init R.init_inv).2, R.init_abs] at h
+  exact C02_history_from_empty max m evs k v h
+
+/-- non-vacuity: a history with a corrupt, an oversized and a good upload and a removal ends with
+exactly the good blob -/
+example :
+    ([Ev.upload [7] true ⟨[[1], [2]], .eof⟩, .upload [8] true ⟨[[9, 9, 9, 9, 9]], .eof⟩,
+      .upload [9] true ⟨[[3], [], [4]], .eof⟩, .upload [5] true ⟨[[5]], .eof⟩, .remove [5]].foldl
+      (applyEv 4 (fun k v => (k, v) == ([9], [3, 4]) || (k, v) == ([5], [5]))) []) = [([9], [3, 4])] := by
+  decide
+
 /-- the defect repaired in /repo (F-C02-1): with a *truncating* reader (`io.LimitReader`, the code as
 pinned) a source longer than the cap whose first `max` bytes match is accepted. Modelled by replacing
 `tooBig` with EOF after `max` bytes. -/
